@@ -444,3 +444,46 @@ func zeroGuarded(p *Program, body *ast.BlockStmt, lit *ast.CompositeLit, field s
 	walk(body, false)
 	return found
 }
+
+// parseFreshRule: what a parse method returns shares no mutable memory with
+// the parser itself.
+func parseFreshRule(c *Ctx, rule string) {
+	p := c.P
+	c.Rule(rule, "no Parser method returns memory that is reachable from the Parser (a scratch slice or buffer kept between calls): nodes of one statement would otherwise alias storage that parsing the next statement of the same query overwrites, so a statement's AST depends on what follows it")
+	e := p.effects()
+	n := 0
+	for _, f := range p.SortedFuncs() {
+		if recvTypeName(f) != "Parser" {
+			continue
+		}
+		sf := p.SSA.FuncValue(f)
+		s := e.sums[sf]
+		if s == nil || len(s.ret) == 0 {
+			continue
+		}
+		n++
+		name := FuncName(f)
+		var bad []string
+		for i := range s.ret {
+			for k := range s.ret[i] {
+				if k == "P:0" {
+					bad = append(bad, fmt.Sprintf("result %d may be memory owned by the parser", i))
+				}
+			}
+			if i < len(s.retContents) {
+				for k := range s.retContents[i] {
+					if k == "P:0" {
+						bad = append(bad, fmt.Sprintf("result %d shares memory with the parser", i))
+					}
+				}
+			}
+		}
+		sort.Strings(bad)
+		if len(bad) > 0 {
+			c.Bad(rule, name, p.FuncDecls[f].Pos(), strings.Join(bad, "; "))
+		} else {
+			c.OK(rule, name, p.FuncDecls[f].Pos(), "results are independent of the parser's own storage")
+		}
+	}
+	c.Floor(rule, n, 80)
+}
